@@ -133,6 +133,11 @@ type SwapData struct {
 	// TimeOut cancel func. If set and called cancels the timeout context so that
 	// the TimeOut callback does not get called after cancel.
 	toCancel context.CancelFunc
+
+	// swapId is the id the swap was created with. It is only needed as long as
+	// no message that carries the id has been applied, e.g. to answer an
+	// invalid request with a cancel message the requester can attribute.
+	swapId *SwapId
 }
 
 func (s *SwapData) GetId() *SwapId {
@@ -148,7 +153,7 @@ func (s *SwapData) GetId() *SwapId {
 	if s.SwapOutAgreement != nil {
 		return s.SwapOutAgreement.SwapId
 	}
-	return nil
+	return s.swapId
 }
 
 func (s *SwapData) GetProtocolVersion() uint8 {
@@ -410,6 +415,7 @@ func NewSwapData(swapId *SwapId, initiatorNodeId string, peerNodeId string) *Swa
 		PrivkeyBytes:    getRandomPrivkey().Serialize(),
 		CreatedAt:       time.Now().Unix(),
 		Role:            SWAPROLE_SENDER,
+		swapId:          swapId,
 	}
 }
 
@@ -421,6 +427,7 @@ func NewSwapDataFromRequest(swapId *SwapId, senderNodeId string) *SwapData {
 		CreatedAt:       time.Now().Unix(),
 		PrivkeyBytes:    getRandomPrivkey().Serialize(),
 		Role:            SWAPROLE_RECEIVER,
+		swapId:          swapId,
 	}
 }
 
